@@ -5,6 +5,7 @@ import (
 	"fmt"
 	"os"
 	"sort"
+	"strings"
 
 	translator "github.com/cossacklabs/acra/cmd/acra-translator/common"
 	"github.com/cossacklabs/acra/crypto"
@@ -229,18 +230,30 @@ func (e *Env) spaces(tier string, only []string) []*Space {
 	return all
 }
 
-// rank: estimated cost class; cheap spaces first.
+// rank: estimated cost in microseconds of CPU (inputs x decoders x a per-family weight);
+// cheap spaces run first, so a wall budget cap leaves the expensive tails and every smaller
+// bound of every family is complete.
 func rank(s *Space) int {
-	c := s.N * len(s.Decs)
+	w := 2 // microseconds per decoder call
 	switch {
-	case c < 200_000:
-		return 0
-	case c < 3_000_000:
-		return 1
-	case c < 30_000_000:
-		return 2
+	case strings.HasPrefix(s.Name, "mysql-session"):
+		w = 1500 // several packets, each allocating what its 3-byte length says
+	case strings.HasPrefix(s.Name, "pg-session"):
+		w = 150
+	case s.Group == "sql":
+		w = 30
+	case s.Group == "yaml":
+		w = 45
+	case s.Group == "keyring":
+		w = 10
+	case strings.HasPrefix(s.Name, "mysql-pa"):
+		w = 20
+	case s.Group == "envelopes", s.Group == "postgresql":
+		w = 5
+	case s.Name == "token-storage/fields", s.Name == "token-generators":
+		w = 40
 	}
-	return 3
+	return s.N * len(s.Decs) * w
 }
 
 // ---------------------------------------------------------------------------------------
@@ -394,9 +407,11 @@ func (e *Env) fieldSpace(group, name string, seeds []seedT, product bool, decs [
 				d := append([]byte(nil), s.Data...)
 				putInt(d[f.Off:f.Off+f.Len], v, f.BE)
 				edits = append(edits, editT{fmt.Sprintf("%s %s=%#x", s.Name, f.Name, v), d})
-				if product {
+				if product && !(f.Len >= 3 && v >= 1<<27) {
 					// a cut inside or before the field gives the same bytes as the cut of the
-					// unaltered seed: only cuts behind the field are new inputs
+					// unaltered seed: only cuts behind the field are new inputs. A declared
+					// length of 128 MiB and more is not combined with cuts: the reader stops at
+					// the field (the data is not there), the bytes behind it are never looked at.
 					truncFrom = append(truncFrom, len(d)-(f.Off+f.Len)+1)
 				} else {
 					truncFrom = append(truncFrom, 1)
